@@ -126,11 +126,13 @@ PROPS["C15"] = {
     "quick": [plain("exh-root", "^TestExhaustive$", shards=3, env={"VERIF_C15_MAXLEN": 3}),
               plain("exh-unpriv", "^TestExhaustive$", shards=3, uid=65534, env={"VERIF_C15_MAXLEN": 3}),
               rapid("rapid-root", "^TestProp", 2000, shards=2), rapid("rapid-unpriv", "^TestProp", 1500, shards=1, uid=65534),
-              rapid("rapid-umask077", "^TestProp", 500, shards=1, env={"VERIF_UMASK": "077"})],
+              rapid("rapid-umask077", "^TestProp", 500, shards=1, env={"VERIF_UMASK": "077"}),
+              rapid("concurrentunpack", "^TestRaceConcurrentUnpack$", 30, shards=2, race=True)],
     "thorough": [plain("exh-root", "^TestExhaustive$", shards=6, env={"VERIF_C15_MAXLEN": 4}),
                  plain("exh-unpriv", "^TestExhaustive$", shards=6, uid=65534, env={"VERIF_C15_MAXLEN": 4}),
                  rapid("rapid-root", "^TestProp", 15000, shards=8), rapid("rapid-unpriv", "^TestProp", 15000, shards=4, uid=65534),
-                 rapid("rapid-umask077", "^TestProp", 5000, shards=2, env={"VERIF_UMASK": "077"})],
+                 rapid("rapid-umask077", "^TestProp", 5000, shards=2, env={"VERIF_UMASK": "077"}),
+                 rapid("concurrentunpack", "^TestRaceConcurrentUnpack$", 400, shards=4, race=True)],
 }
 
 PROPS["C12"] = {
